@@ -95,6 +95,20 @@ struct SymMapF : public ExplicitTreeAut::AbstractSymbolTranslateF {
 	virtual lib::SymbolType operator()(const lib::SymbolType& s) override { auto it = m.find(s); return it == m.end() ? s : it->second; }
 };
 
+struct ShiftF : public VATA::AbstractReindexF {
+	StateType k = 0;       // q -> (q + k) % 5 below 5 (the state range of the hand-added rules), identity above
+	StateType f(const StateType& s) const { return s < 5 ? (s + k) % 5 : s; }
+	virtual StateType operator[](const StateType& s) override { return f(s); }
+	virtual StateType at(const StateType& s) const override { return f(s); }
+};
+struct ParityCopyF : public ExplicitTreeAut::AbstractCopyF {
+	uint32_t sel = 0;      // keeps the rules whose (parent + arity) has the selected parity; sel >= 2 keeps everything
+	virtual bool operator()(const ExplicitTreeAut::Transition& t) override
+	{
+		return sel >= 2 || ((t.GetParent() + t.GetChildren().size()) % 2) == sel;
+	}
+};
+
 // executes a value-producing tree operation; returns false when it was skipped
 bool tree_value_op(eng::Ctx& ctx, const std::string& op, const ExplicitTreeAut& a, const ExplicitTreeAut& b,
 	const ref::TA& va, const ref::TA& vb, uint32_t par, ExplicitTreeAut& out)
@@ -290,7 +304,8 @@ void harness::run_case(const eng::Raw& raw, eng::Ctx& ctx)
 					eng::LibSection ls(ctx, "tree:AddTransition");
 					ExplicitTreeAut::StateTuple ch;
 					for (int c : rule.ch) ch.push_back(static_cast<StateType>(c));
-					W.th[i]->AddTransition(ch, lib::sym_to_lib(W.th[i]->GetAlphabet(), rule.sym), static_cast<StateType>(rule.par));
+					if (r[7] % 2) W.th[i]->AddTransition(ch, lib::sym_to_lib(W.th[i]->GetAlphabet(), rule.sym), static_cast<StateType>(rule.par));
+					else W.th[i]->AddTransition(ExplicitTreeAut::Transition(static_cast<StateType>(rule.par), lib::sym_to_lib(W.th[i]->GetAlphabet(), rule.sym), ch));
 					W.tm[i].rules.insert(rule);
 					W.tgrp[i] = W.nextGrp++;
 					break;
@@ -301,6 +316,15 @@ void harness::run_case(const eng::Raw& raw, eng::Ctx& ctx)
 					W.log << W.step << ":ta.final(h" << i << "," << r[2] % 5 << ") ";
 					if (W.tshares(i)) W.mutatedShared = true;
 					eng::LibSection ls(ctx, "tree:SetStateFinal");
+					if (r[4] % 3 == 0) {
+						// the bulk overload ADDS the given states (possibly none) to the final set
+						std::set<StateType> bulk;
+						for (uint32_t b = 0; b < 5; ++b) if ((r[5] >> b) & 1) bulk.insert(b);
+						W.th[i]->SetStatesFinal(bulk);
+						for (StateType b : bulk) W.tm[i].finals.insert(static_cast<int>(b));
+						what = "SetStatesFinal";
+						break;
+					}
 					W.th[i]->SetStateFinal(r[2] % 5);
 					W.tm[i].finals.insert(static_cast<int>(r[2] % 5));
 					break;
@@ -337,6 +361,31 @@ void harness::run_case(const eng::Raw& raw, eng::Ctx& ctx)
 				}
 				case 13: case 14: {   // value-producing operation; the result enters the pool with the value observed now
 					size_t i = pick(r[1]), j = pick(r[2]);
+					if (i != j && (r[7] % 3) == 0) {
+						// the two public calls that write INTO an existing automaton of the caller (which may share storage)
+						if (W.tshares(j)) W.mutatedShared = true;
+						if ((r[7] / 3) % 2) {
+							what = "ReindexStates-into";
+							ShiftF f; f.k = r[5] % 5;
+							const bool addFinals = (r[6] % 2) == 0;
+							W.log << W.step << ":ta.ReindexStates(h" << i << " into h" << j << ",+" << f.k << "," << addFinals << ") ";
+							std::map<int,int> hm;
+							for (int q : W.tm[i].states()) hm[q] = static_cast<int>(f.f(static_cast<StateType>(q)));
+							ref::TA img = W.tm[i].image(hm);
+							{ eng::LibSection ls(ctx, "tree:ReindexStates-into"); W.th[i]->ReindexStates(*W.th[j], f, addFinals); }
+							W.tm[j].rules.insert(img.rules.begin(), img.rules.end());
+							if (addFinals) W.tm[j].finals.insert(img.finals.begin(), img.finals.end());
+						} else {
+							what = "CopyTransitionsFrom";
+							ParityCopyF f; f.sel = r[5] % 3;
+							W.log << W.step << ":ta.CopyTransitionsFrom(h" << j << " <- h" << i << ",sel=" << f.sel << ") ";
+							{ eng::LibSection ls(ctx, "tree:CopyTransitionsFrom"); W.th[j]->CopyTransitionsFrom(*W.th[i], f); }
+							for (auto& rule : W.tm[i].rules)
+								if (f.sel >= 2 || ((static_cast<uint32_t>(rule.par) + rule.ch.size()) % 2) == f.sel) W.tm[j].rules.insert(rule);
+						}
+						W.tgrp[j] = W.nextGrp++;
+						break;
+					}
 					const size_t oi = r[4] % (sizeof(TREE_VALUE_OPS) / sizeof(TREE_VALUE_OPS[0]));
 					const std::string name = TREE_VALUE_OPS[oi];
 					what = name;
